@@ -475,6 +475,8 @@ pub struct BlockPlan {
     pub ov_usize: Option<u64>,
     /// (index into header padding, value)
     pub ov_hpad: Option<(usize, u8)>,
+    /// several header padding bytes at once: (offset into the padding, bytes)
+    pub ov_hpads: Option<(usize, Vec<u8>)>,
     pub ov_hcrc: Option<u32>,
     /// replaces block padding bytes (any length)
     pub ov_bpad: Option<Vec<u8>>,
@@ -588,6 +590,13 @@ pub fn build_xz(plan: &XzPlan) -> XzBuilt {
         if let Some((i, v)) = b.ov_hpad {
             if pad > 0 {
                 hdr[pad_off + i % pad] = v;
+            }
+        }
+        if let Some((at, vs)) = &b.ov_hpads {
+            for (k, v) in vs.iter().enumerate() {
+                if at + k < pad {
+                    hdr[pad_off + at + k] = *v;
+                }
             }
         }
         let hc = b.ov_hcrc.unwrap_or_else(|| crc32(&hdr));
